@@ -62,6 +62,54 @@ def nk(ctx, skf, binary=None):
     return M.parse_nk(p.stdout)
 
 
+def stored_rows(ctx, skf):
+    """Every stored field of an .skf through the harness (`rows`): (header dict, {kmer int: (bases, stored count)}).
+    Returns None when the file is rejected or its three parallel containers disagree in length."""
+    p = ctx.sh(ctx.bins['harness'], 'rows', skf)
+    if p.returncode != 0 or 'INCONSISTENT' in p.stdout:
+        return None
+    hdr, rows = {}, {}
+    for l in p.stdout.split('\n'):
+        f = l.split('\t')
+        if f[0] == 'ROW':
+            rows[int(f[1])] = (f[2], int(f[3]))
+        elif len(f) == 2:
+            hdr[f[0]] = f[1]
+    return hdr, rows
+
+
+def stored_problems(ctx, skf, table, names, k, rcmode, counts='nongap', kbits=True):
+    """The stored object against a table {arms: bases}: header fields, the three parallel containers of equal length,
+    the rows themselves (decoded from the integers, not through nk) and the stored per-row counts (number of non-gap
+    bases, or of unambiguous bases for counts='unamb'; counts=None leaves them unjudged).  Returns a list of problems."""
+    st = stored_rows(ctx, skf)
+    if st is None:
+        return ['stored object rejected or its parallel containers disagree in length']
+    hdr, rows = st
+    bad = []
+    if hdr.get('k') != str(k) or hdr.get('rc') != ('true' if rcmode else 'false') or hdr.get('names') != ','.join(names):
+        bad.append('stored header %s' % hdr)
+    if kbits and hdr.get('k_bits') != ('64' if k <= 31 else '128'):
+        bad.append('stored k_bits %s for k=%d' % (hdr.get('k_bits'), k))
+    want = {}
+    for arms, bases in table.items():
+        v = 0
+        for c in arms:
+            v = v * 4 + M.ORD[c]
+        want[v] = ''.join(bases)
+    got = {kk: b for kk, (b, _c) in rows.items()}
+    if got != want:
+        d = [(x, got.get(x), want.get(x)) for x in set(got) | set(want) if got.get(x) != want.get(x)]
+        bad.append('stored rows differ from the table (k-mer integer, stored, expected): %s' % d[:3])
+    elif counts:
+        for kk, (b, c) in rows.items():
+            exp = sum(1 for x in b if x != '-' and (counts == 'nongap' or not M.is_ambig(x)))
+            if c != exp:
+                bad.append('stored count %d for row %s (k-mer %d), %d expected' % (c, b, kk, exp))
+                break
+    return bad
+
+
 class NkFailed(Exception):
     pass
 
@@ -161,9 +209,21 @@ def build_table(ctx, rows, k, ns, out, rcmode=True, prefix='s'):
     return fns
 
 
-def align_output(ctx, args, binary=None):
-    p = ctx.sh(binary or ctx.ska, 'align', *args)
+STALE = ''.join('>stale_sample_%d\n%s\n' % (i, 'ACGTN-' * 40) for i in range(40))
+
+
+def stale_file(ctx, name):
+    """An output path that already holds a longer, older result: the command has to replace it, not overwrite its head."""
+    return ctx.write(name, STALE)
+
+
+def align_output(ctx, args, binary=None, stale_out=False):
+    if stale_out:
+        out = stale_file(ctx, 'stale_align.out')
+        p = ctx.sh(binary or ctx.ska, 'align', *args, '-o', out)
+    else:
+        p = ctx.sh(binary or ctx.ska, 'align', *args)
     if p.returncode != 0:
         return None, None, p
-    names, seqs = M.parse_fasta(p.stdout)
+    names, seqs = M.parse_fasta(open(out).read() if stale_out else p.stdout)
     return names, seqs, p
